@@ -47,7 +47,9 @@ type op struct {
 	NoL    bool `json:"nol,omitempty"`    // vp9 without layer indices (L=0): temporal and spatial layer 0, not an up-switch point
 	Intra  bool `json:"intra,omitempty"`  // vp9 P=0 on a frame that is not a keyframe (intra-only / refresh frame)
 	Late   bool `json:"late,omitempty"`
-	N      int  `json:"n,omitempty"`
+	// the packet follows an outage: its number is 10000 beyond the previous one
+	Jump bool `json:"jump,omitempty"`
+	N    int  `json:"n,omitempty"`
 }
 
 func (o op) String() string {
@@ -62,7 +64,9 @@ type world struct {
 	cursor  int64 // next source position
 	hole    int64 // a skipped position available for "late", -1 if none
 	npkts   int
-	maxTid  int // highest layers seen by the oracle
+	jumps   int  // outages so far
+	dropped bool // some packet has been withheld (the sequence map holds drops)
+	maxTid  int  // highest layers seen by the oracle
 	maxSid  int
 	limited bool // low quality requested
 	kfSince bool // a keyframe start was processed since limit(on)
@@ -139,6 +143,10 @@ func (w *world) Ops() []seqx.Op {
 		ops = append(ops, p)
 	}
 	ops = append(ops, op{Kind: "skip"})
+	// an outage: the stream resumes with a base-layer frame start far ahead
+	if w.npkts > 0 && w.jumps < 1 {
+		ops = append(ops, op{Kind: "pkt", Start: true, Jump: true}, op{Kind: "pkt", Start: true, K: true, Jump: true})
+	}
 	if w.hole >= 0 {
 		ops = append(ops, op{Kind: "pkt", Late: true, Start: true, K: true})
 		ops = append(ops, op{Kind: "pkt", Late: true, Tid: 1, Start: true})
@@ -280,9 +288,14 @@ func (w *world) packet(o op, before rtpconn.VerifLayer) *core.Violation {
 		p = w.hole
 		w.hole = -1
 	} else {
+		if o.Jump {
+			w.cursor += 10000
+			w.jumps++
+			w.hole = -1 // far out of reach
+		}
 		p = w.cursor
 		w.cursor++
-		inorder = w.npkts > 0 && w.hole != p-1
+		inorder = w.npkts > 0 && w.hole != p-1 && !o.Jump
 	}
 	if !o.Late && w.hole == p-1 {
 		inorder = false // follows a gap
@@ -333,6 +346,9 @@ func (w *world) packet(o op, before rtpconn.VerifLayer) *core.Violation {
 	out := w.w.Rec.Take()
 	after := w.w.Down.Layer()
 	desc := fmt.Sprintf("packet %s (in order: %v)", o, inorder)
+	if len(out) == 0 {
+		w.dropped = true
+	}
 
 	// (a) above the selection and in order => withheld
 	if inorder && (o.Tid > int(after.Tid) || o.Sidv > int(after.Sid)) && len(out) > 0 {
@@ -417,6 +433,9 @@ func (w *world) Canon() string {
 	if w.hole >= 0 {
 		b.WriteString("|hole")
 	}
+	// an outage resets the sequence map only if it holds drops: whether it
+	// does is part of the state once an outage can still happen or has happened
+	fmt.Fprintf(&b, "|j%d,%v", w.jumps, w.dropped)
 	return b.String()
 }
 
